@@ -10,70 +10,46 @@ shapes (Ymq/Gen/SchedShape.lean) with the step function of Ymq/Model/Sched.lean.
   T      the store is complete when it holds T relations (0 = never)
   flip   the k-th poll (0-based) and every later one answers true; `-` = never
   final  the driver polls once more after the loop (classgroup(): `if prefs.abort() { return None; }`)
-One worker, fresh flag reads. The units are run one after the other with `step` on `compileUnit`; a poll answered true
-ends the loop when the generated `leavesLoop` says so and only the unit otherwise (the next unit polls again); a flag seen
-set ends the worker. Answer: `<events>/<outcome>` as printed by harness/src/ops_schedtrace.rs (`a<c>` only for QS).
+One worker, fresh flag reads, on the unit-level model (Ymq/Model/SchedUnits.lean: `initU`, `stepU`): a poll answered true ends
+the loop when the generated `leavesLoop` says so and only the unit otherwise (the next unit polls again); a flag seen set
+ends the worker. Answer: `<events>/<outcome>` as printed by harness/src/ops_schedtrace.rs (`a<c>` only for QS).
 No Mathlib.
 -/
 import Ymq.Drv.Util
-import Ymq.Model.SchedShape
+import Ymq.Model.SchedUnits
 
 namespace Ymq.Drv
 open Ymq.Sched Ymq.Gen.SchedShape
 
 structure TraceSt where
-  store : Nat := 0
-  done : Bool := false
+  c : UCfg Nat Nat
   polls : Nat := 0
   pend : Nat := 0
   ev : Array String := #[]
   fired : Bool := false
 
-inductive UnitEnd | complete | polled | flagged
-  deriving DecidableEq
-
-/-- one unit: `fuel` = length of its program -/
-def runUnitTrace (T : Nat) (flip : Option Nat) (showAdds : Bool) :
-    Nat → TraceSt → List (Act Nat) → TraceSt × UnitEnd
-  | 0, st, _ => (st, UnitEnd.complete)
-  | _, st, [] => (st, UnitEnd.complete)
-  | fuel + 1, st, a :: rest =>
+/-- worker 0 of the unit-level model (`stepU`, the function the theorems `abort_unit_bounded` ... are about) run to its end with
+fresh flag reads; the j-th poll answers `flip ≤ j`; `fuel` bounds the number of steps (actions + units) -/
+def runTrace (leaves : Bool) (T : Nat) (flip : Option Nat) (showAdds : Bool) : Nat → TraceSt → TraceSt
+  | 0, st => st
+  | fuel + 1, st =>
     let enough : Nat → Bool := fun s => T > 0 && s ≥ T
-    let ab := match a with
-      | Act.poll => (match flip with | some k => decide (k ≤ st.polls) | none => false)
-      | _ => false
-    let c : Cfg Nat Nat := { store := st.store, log := [], done := st.done, pcs := [a :: rest] }
-    let c' := step (fun s _ => s + 1) enough c 0 false ab
-    let st1 : TraceSt := match a with
-      | Act.poll =>
-        let ev := if showAdds && st.pend > 0 then st.ev.push s!"a{st.pend}" else st.ev
-        { st with polls := st.polls + 1, pend := 0, ev := ev.push (if ab then "p1" else "p0"), fired := st.fired || ab }
-      | Act.add _ => { st with pend := st.pend + 1 }
-      | _ => st
-    let st2 := { st1 with store := c'.store, done := c'.done }
-    match c'.pcs with
-    | [next] =>
-      if next.isEmpty && !rest.isEmpty then
-        (st2, match a with | Act.poll => if ab then UnitEnd.polled else UnitEnd.flagged | _ => UnitEnd.flagged)
-      else if next.isEmpty then
-        -- last action of the unit: a true poll / a flag seen still end more than the unit
-        (st2, match a with
-          | Act.poll => if ab then UnitEnd.polled else (if st.done then UnitEnd.flagged else UnitEnd.complete)
-          | Act.check => if st.done then UnitEnd.flagged else UnitEnd.complete
-          | _ => UnitEnd.complete)
-      else runUnitTrace T flip showAdds fuel st2 next
-    | _ => (st2, UnitEnd.complete)
-
-def runUnitsTrace (sh : Shape) (leaves : Bool) (T : Nat) (flip : Option Nat) (showAdds : Bool) :
-    TraceSt → List (List (List Nat)) → TraceSt
-  | st, [] => st
-  | st, u :: us =>
-    let prog := compileUnit sh u
-    let (st', e) := runUnitTrace T flip showAdds prog.length st prog
-    match e with
-    | UnitEnd.complete => runUnitsTrace sh leaves T flip showAdds st' us
-    | UnitEnd.flagged => st'
-    | UnitEnd.polled => if leaves then st' else runUnitsTrace sh leaves T flip showAdds st' us
+    match (st.c.ws[0]? : Option (UWorker Nat)) with
+    | none => st
+    | some { cur := [], rest := [] } => st
+    | some { cur := [], rest := _ :: _ } =>
+      runTrace leaves T flip showAdds fuel { st with c := stepU leaves (fun s _ => s + 1) enough st.c 0 false false }
+    | some { cur := a :: _, rest := _ } =>
+      let ab := match a with
+        | Act.poll => (match flip with | some k => decide (k ≤ st.polls) | none => false)
+        | _ => false
+      let st1 : TraceSt := match a with
+        | Act.poll =>
+          let ev := if showAdds && st.pend > 0 then st.ev.push s!"a{st.pend}" else st.ev
+          { st with polls := st.polls + 1, pend := 0, ev := ev.push (if ab then "p1" else "p0"), fired := st.fired || ab }
+        | Act.add _ => { st with pend := st.pend + 1 }
+        | _ => st
+      runTrace leaves T flip showAdds fuel { st1 with c := stepU leaves (fun s _ => s + 1) enough st.c 0 false ab }
 
 def handleSchedTrace : Handler
   | "sched_model" :: name :: units :: t :: flip :: opt => do
@@ -90,14 +66,16 @@ def handleSchedTrace : Handler
       if isQs then forkUnit f (List.replicate c 1, [], [])
       else if name == "ecm" then curveUnit (if c = 0 then none else some 1)
       else [List.replicate c 1])
-    let st := runUnitsTrace sh leaves T fl isQs {} us
+    let c0 : UCfg Nat Nat := initU sh 0 [us]
+    let fuel := ((us.map (fun u => (compileUnit sh u).length + 1)).foldl (· + ·) 0) + 1
+    let st := runTrace leaves T fl isQs fuel { c := c0 }
     let st := if final then
         let ab := match fl with | some k => decide (k ≤ st.polls) | none => false
         { st with polls := st.polls + 1, ev := st.ev.push (if ab then "p1" else "p0"), fired := st.fired || ab }
       else st
     let ev := if isQs && st.pend > 0 then st.ev.push s!"a{st.pend}" else st.ev
     let tr := if ev.isEmpty then "-" else ",".intercalate ev.toList
-    let oc := if st.fired then "abort" else if st.done then "done" else (if final then "panic" else "exhausted")
+    let oc := if st.fired then "abort" else if st.c.done then "done" else (if final then "panic" else "exhausted")
     some s!"{tr}/{oc}"
   | _ => none
 
